@@ -276,6 +276,16 @@ func binaryOperatorUniverse(p *Program, m *prattModel) (map[string]string, []str
 				}
 			case tagR == "*p.previous" || tagR == "*p.current" || tagR == "opToken" || consumedTokenText(p, tagR):
 				base := rowsOf(f)
+				if prm, isPrm := tok.(*ssa.Parameter); isPrm && tagR != "opToken" || isPrm && len(rowsOf(f)) == 0 && !isCompoundRewriterFn(p, f) {
+					// a node constructor taking the operator token as a parameter (`binaryNode(left, opToken,
+					// right)`): the token is what its call sites pass
+					if tags, _, ok := tokenValueTags(p, f, prm, a, 0); ok && len(tags) > 0 {
+						for _, t := range tags {
+							u[t] = where
+						}
+						return
+					}
+				}
 				if tagR == "opToken" {
 					// helper taking the operator token as a parameter: handled through its callers
 					return
@@ -1189,4 +1199,8 @@ func incdecStoredForm(v string) bool {
 		return true
 	}
 	return strings.Contains(v, "evalAssignment(") && strings.HasSuffix(v, "#0.Value}")
+}
+
+func isCompoundRewriterFn(p *Program, f *ssa.Function) bool {
+	return findCompoundRewriter(p, extractPratt(p)) == f
 }
